@@ -23,7 +23,7 @@ func cfgText(blocking bool, sim bool) string {
 	if blocking {
 		b = "TRUE"
 	}
-	s := fmt.Sprintf("CONSTANTS\n  Blocking = %s\n  Graphs <- MCGraphs\n  Configs <- MCConfigs\n", b)
+	s := fmt.Sprintf("CONSTANTS\n  Blocking = %s\n  EarlyUnlock = FALSE\n  Graphs <- MCGraphs\n  Configs <- MCConfigs\n", b)
 	if sim {
 		return s + "INIT Init\nNEXT NextSim\nINVARIANT EmitAtEnd\nCHECK_DEADLOCK FALSE\n"
 	}
@@ -62,6 +62,19 @@ func run(c *core.Ctx) error {
 		return core.Inconclusivef("negative control failed: with Blocking=TRUE at NW=1,QCap=1 TLC should find a deadlock, got %s %s", r.Verdict, r.What)
 	}
 	c.Note("negative control: Async with Blocking=TRUE (send blocks on a full queue) deadlocks at NW=1,QCap=1 (TLC), as the pinned code did before fix bdf2800")
+
+	// ---- second negative control: releasing the promise lock between the pending check and the
+	// registration of the continuation (seeded change C15-1) loses a wake-up
+	r, err = tlc.Run(tlc.Opts{SpecDir: specDir, Module: "MC_Async", Cfg: "MC_Async.cfg", Scratch: c.Scratch, Workers: 2, Timeout: 3 * time.Minute,
+		Extra: map[string][]byte{"MC_Async.tla": []byte(MC("MC_Async", graphs[:1], [][2]int{{2, 2}})),
+			"MC_Async.cfg": []byte(strings.Replace(cfgText(false, false), "EarlyUnlock = FALSE", "EarlyUnlock = TRUE", 1))}})
+	if err != nil {
+		return err
+	}
+	if r.OK {
+		return core.Inconclusivef("negative control failed: with EarlyUnlock=TRUE TLC should find a lost wake-up, got %s %s", r.Verdict, r.What)
+	}
+	c.Note(fmt.Sprintf("negative control: Async with EarlyUnlock=TRUE (lock released between the pending check and the registration) violates %s %s at NW=2,QCap=2 (TLC)", r.Verdict, r.What))
 
 	// ---- model checking of every (graph, NW, QCap) instance: safety, deadlock freedom, termination
 	mc := []byte(MC("MC_Async", graphs, configs))
